@@ -386,10 +386,22 @@ class Ctx:
         self.broken.append(dict(what=what, detail=detail[-3000:]))
 
     # -- build + proof obligations ----------------------------------------
-    def build(self, extracted: list[str] = (), translators: set[str] | None = None, props: list[str] | None = None):
+    def build(self, extracted: list[str] = (), translators: set[str] | None = None, props: list[str] | None = None,
+              vo_targets: list[str] = ()):
+        """translators: names of harness/gen/gen_*.py to run (None = all).  Only the .vo closure of
+        props/<ID>.v (+ vo_targets, e.g. 'rt/ServerM.vo', + what the extraction files import) is built."""
         with Lock():
             self.translator_errors = run_translators(translators)
-            rc, log = make()
+            tg = [f'props/{p}.vo' for p in (props or [self.prop])] + list(vo_targets)
+            for name in extracted:
+                src = (COQ / 'extract' / f'{name}.v').read_text()
+                for m in re.finditer(r'(?:From\s+BQ\s+)?Require\s+(?:Import\s+|Export\s+)?([^.]*(?:\.[A-Za-z_][\w]*)*)\.', strip_comments(src)):
+                    for mod in m.group(1).split():
+                        mod = mod.removeprefix('BQ.')
+                        f = COQ / (mod.replace('.', '/') + '.v')
+                        if f.exists():
+                            tg.append(mod.replace('.', '/') + '.vo')
+            rc, log = make(sorted(set(tg)))
             self.build_log = log
             self.make_rc = rc
             self.extract_ok = {}
